@@ -185,7 +185,7 @@ def run(tier):
                  "programmatic": True}, "probe", True)
     ck.count("default_value_probes", 2 * len(vals))
     # ---- every Python representation of a default value, at every nesting (see gen_schema.representation_probes)
-    for key, s in G.representation_probes():
+    for key, s in G.class_probes() + G.representation_probes():
         try:
             if validate_schema(s):
                 ck.count("probe_invalid")
@@ -199,14 +199,15 @@ def run(tier):
     # ---- generated schemas --------------------------------------------------------------
     n = 700 if quick else 6000
     for i in range(n):
-        spec = G.gen_spec(rng, size=rng.randint(1, 3), adversarial=i % 5 != 0, directive_deprecation=i % 4 == 0)
+        spec = G.gen_spec(rng, size=rng.randint(1, 3), adversarial=i % 5 != 0, directive_deprecation=i % 4 == 0,
+                          incremental=i % 3 == 1)
         sdl = G.spec_to_sdl(spec)
         dd = any(d.depr is not None for d in spec.directives)
         # non-trivial: descriptions AND default values AND deprecations are all present
         rich = ('"' in sdl) and (" = " in sdl) and ("@deprecated" in sdl)
         for mode in ("sdl", "prog"):
             try:
-                s = build_again(sdl, dd) if mode == "sdl" else G.spec_to_schema(spec, rng)
+                s = build_again(sdl, dd) if mode == "sdl" else G.spec_to_schema(spec, rng, subclasses=i % 3 == 0)
                 if validate_schema(s):
                     raise ValueError("invalid")
             except Exception as e:  # noqa: BLE001
